@@ -2,6 +2,7 @@ package props
 
 import (
 	"fmt"
+	"sort"
 
 	"pgregory.net/rapid"
 
@@ -207,6 +208,31 @@ func c14Gen2(t *rapid.T) c14Case {
 			nt.Alts = append(nt.Alts, tAlt{})
 		}
 	}
+	// lookahead predicates over templated nonterminals at the start of 1..2 alternatives; every
+	// parameter the caller or a default can supply is omitted, so that the enclosing context decides
+	if !hasLA && len(c.NTs) > 2 && rapid.IntRange(0, 2).Draw(t, "predicates") == 0 {
+		for n := rapid.IntRange(1, 2).Draw(t, "nPredicates"); n > 0; n-- {
+			ci := rapid.IntRange(1, len(c.NTs)-1).Draw(t, "predIn")
+			caller := &c.NTs[ci]
+			a := &caller.Alts[rapid.IntRange(0, len(caller.Alts)-1).Draw(t, "predAlt")]
+			if len(a.Parts) == 0 || a.Parts[0].LA != 0 {
+				continue
+			}
+			target := rapid.IntRange(1, len(c.NTs)-1).Draw(t, "predTarget")
+			p := tPart{NT: target, LA: 1 + rapid.IntRange(0, 1).Draw(t, "predNeg")}
+			for _, q := range c.NTs[target].Params {
+				callerHas := false
+				for _, cq := range caller.Params {
+					callerHas = callerHas || c.Params[cq].Name == c.Params[q].Name
+				}
+				if callerHas || c.Params[q].Default != "" {
+					continue
+				}
+				p.Args = append(p.Args, tArg{Param: q, Kind: "lit", Lit: rapid.Bool().Draw(t, "predLit")})
+			}
+			a.Parts = append([]tPart{p}, a.Parts...)
+		}
+	}
 	if rapid.IntRange(0, 2).Draw(t, "withSets") != 0 {
 		// (sets are evaluated over the rules reachable from an input with end-of-input: the two
 		// features are kept apart)
@@ -242,4 +268,13 @@ func c14Gen2(t *rapid.T) c14Case {
 		}
 	}
 	return c
+}
+
+func sortedKeys(m map[string]bool) []string {
+	out := make([]string, 0, len(m))
+	for k := range m {
+		out = append(out, k)
+	}
+	sort.Strings(out)
+	return out
 }
